@@ -17,6 +17,7 @@ package assertiontree
 import (
 	"fmt"
 	"go/ast"
+	"go/constant"
 	"go/token"
 	"go/types"
 	"slices"
@@ -24,6 +25,7 @@ import (
 	"go.uber.org/nilaway/annotation"
 	"go.uber.org/nilaway/hook"
 	"go.uber.org/nilaway/util/analysishelper"
+	"go.uber.org/nilaway/util/asthelper"
 	"go.uber.org/nilaway/util/tokenhelper"
 	"go.uber.org/nilaway/util/typeshelper"
 	"golang.org/x/tools/go/ast/astutil"
@@ -327,6 +329,27 @@ func AddNilCheck(pass *analysishelper.EnhancedPass, expr ast.Expr) (trueCheck, f
 				return noop, noop, true
 			},
 		},
+		{
+			// `c == true` and `c == false`, where `c` is itself a check, e.g., `(a != nil) == true`. Branch conditions
+			// of this form are simplified during the canonicalization of the CFG, but a check can also be an operand
+			// of `&&` or `||` in a non-branching expression (see the handling of binary expressions in
+			// `AddComputation`), e.g., `return (a != nil) == true && a.f == 1`.
+			// Automatic cases:
+			//   - `true == c`
+			//   - `c != true`
+			//   - `true != c`
+			op: token.EQL,
+			matcher: func(x, y ast.Expr) (RootFunc, RootFunc, bool) {
+				if value, ok := boolConstant(pass, y); ok {
+					trueNilCheck, falseNilCheck, isNoop := AddNilCheck(pass, x)
+					if !value {
+						trueNilCheck, falseNilCheck = falseNilCheck, trueNilCheck
+					}
+					return trueNilCheck, falseNilCheck, isNoop
+				}
+				return noop, noop, true
+			},
+		},
 	}
 
 	// Apply the checkers.
@@ -355,6 +378,23 @@ func AddNilCheck(pass *analysishelper.EnhancedPass, expr ast.Expr) (trueCheck, f
 		}
 	}
 	return noop, noop, true
+}
+
+// boolConstant returns the value of `expr` if it is a boolean constant (e.g., the predeclared `true` and `false`).
+// The type checker is consulted first, so that a user-shadowed `true` or `false` is classified correctly; identifiers
+// that are absent from the type information (the fake identifiers we synthesize during preprocessing) are matched
+// by name.
+func boolConstant(pass *analysishelper.EnhancedPass, expr ast.Expr) (value bool, ok bool) {
+	if tv, ok := pass.TypesInfo.Types[expr]; ok {
+		if tv.Value != nil && tv.Value.Kind() == constant.Bool {
+			return constant.BoolVal(tv.Value), true
+		}
+		return false, false
+	}
+	if asthelper.IsLiteral(expr, "true", "false") {
+		return asthelper.IsLiteral(expr, "true"), true
+	}
+	return false, false
 }
 
 func extractLenArgs(expr ast.Expr, allowNested bool) []ast.Expr {
